@@ -1,4 +1,57 @@
-from harness.interp_common import InterpProp
+import json
+
+from harness.common import b, z
+from harness.interp_common import InterpProp, gen_interp_case
+
+_RUN = [None]
+
+
+def clock_run():
+    """one real interpreter (with the engine's real tag collection) for all clock cases"""
+    if _RUN[0] is None:
+        from harness import interp_driver as ID
+        _RUN[0] = ID.Run(["1.0 Mark: A", "Mark: B"])
+    return _RUN[0]
+
+
+def gen_clock(rng):
+    base = rng.choice(["s", "s", "min", "h"])
+    f = {"s": 1, "min": 60, "h": 3600}[base]
+    thr = rng.choice([0, 1, 5, 10, 15, 20, 25, 100]) if rng.random() < 0.8 else rng.randint(0, 300)
+    edge = 10 * thr * f
+    def near():
+        r = rng.random()
+        if r < 0.5:
+            return max(0, edge + rng.choice([-100, -10, -1, 0, 0, 1, 10, 100]))
+        return rng.randint(0, max(1, 2 * edge + 50))
+    return dict(kind="clock", completed=rng.random() < 0.1, has_thr=rng.random() < 0.9, forced=rng.random() < 0.1,
+                in_interrupt=rng.random() < 0.5, block=rng.choice(["none", "empty", "name", "name"]), base=base, thr=thr,
+                scope=near(), blocktime=near())
+
+
+def run_clock(case):
+    from openpectus.lang.exec.pinterpreter import PInterpreter
+    r = clock_run()
+    interp, e = r.interp, r.env.engine
+    node = r.table[1][0]
+    node.completed = case["completed"]
+    node._forced = case["forced"]
+    node.threshold = case["thr"] / 10 if case["has_thr"] else None
+    e.tags["Base"].set_value(case["base"], 0)
+    e.tags["Block"].set_value({"none": None, "empty": "", "name": "B1"}[case["block"]], 0)
+    # Scope Time / Block Time compute their value from the timer of the innermost scope / block
+    st, bt = e.tags["Scope Time"], e.tags["Block Time"]
+    st._stack, st._timers = ["n"], {"n": case["scope"] / 100}
+    item = type(bt).StackItem("B1")
+    item.value = case["blocktime"] / 100
+    bt._stack = [item]
+    interp._in_interrupt = case["in_interrupt"]
+    try:
+        return dict(kind="clock", awaiting=bool(PInterpreter._is_awaiting_threshold(interp, node)))
+    except Exception as ex:
+        return dict(kind="clock", raised=repr(ex)[:200])
+    finally:
+        interp._in_interrupt = False
 
 
 class C03(InterpProp):
@@ -6,15 +59,44 @@ class C03(InterpProp):
     DESIGN_REF = "DESIGN.md §7 C03"
     QUICK_N = 300
     THOROUGH_N = 12000
-    LEVEL_TEXT = 'PARTIAL. Coq theorem about the interpreter model: in EVERY tick, from any state and with any environment, a line outside alarm bodies whose threshold is still awaited in that tick is not started by that tick (unless completed or forced): only the threshold loop of visit starts a line. The threshold arithmetic (clock vs threshold with units) is an oracle of the model and is not covered; promptness and the Wait clause are decided by the Coq monitor on the real interpreter with exact tick times.'
-    LEVEL_NOTE = "Theorems are about coq/model/Interp.v (stage A: no macros, injection, live edits, cancel/force). Tie: as for C05 -- tick-by-tick correspondence of the model with the real PInterpreter under scripted environments on every node's state fields, the interrupt map, the Block tag, scheduled commands and errors; the property's Coq monitor runs on the real observations. No axioms."
-    TECHNIQUE = 'Coq proof (per-node update relation closed under every frame transition of the interpreter model, lifted to ticks and runs) + tick-by-tick correspondence with the real PInterpreter + Coq monitor on the real node states'
-    RULE = 'methods and environments as for C05 (15% of the lines carry a threshold released at a random tick; waits of 0-2 s with tick increments 0.5-1 s); non-trivial = at least 10 ticks and three completed lines'
+    LEVEL_TEXT = 'PARTIAL. Coq theorem about the interpreter model: in EVERY tick, from any state and with any environment, a line outside alarm bodies whose threshold is still awaited in that tick is not started by that tick (unless completed or forced): only the threshold loop of visit starts a line. The oracle (still awaited) is tied to the code by a second theorem and stream: _is_awaiting_threshold holds an uncompleted, unforced thresholded line back EXACTLY while the clock of its scope (Block Time when the Block tag names a block, Scope Time otherwise; base units s / min / h) is below the threshold, for main flow and interrupt handlers alike; volume / CV base units are not covered. Promptness and the Wait clause are decided by the Coq monitor on the real interpreter with exact tick times.'
+    LEVEL_NOTE = "Theorems are about coq/model/Interp.v (stage A: no macros, injection, live edits, cancel/force). Tie: as for C05 -- tick-by-tick correspondence of the model with the real PInterpreter under scripted environments on every node's state fields, the interrupt map, the Block tag, scheduled commands and errors; the property's Coq monitor runs on the real observations. Clock stream: the real PInterpreter._is_awaiting_threshold is called on a real interpreter whose real tag objects (Base, Block, the timers of Scope Time and Block Time) are set to generated values around the threshold, with the node flags and _in_interrupt varied, and compared with the model's decision. No axioms."
+    TECHNIQUE = 'Coq proof (per-node update relation closed under every frame transition of the interpreter model, lifted to ticks and runs) + function-level correspondence of the threshold decision with the real _is_awaiting_threshold + tick-by-tick correspondence with the real PInterpreter + Coq monitor on the real node states'
+    RULE = '60% interpreter runs: methods and environments as for C05 (15% of the lines carry a threshold released at a random tick; waits of 0-2 s with tick increments 0.5-1 s); non-trivial = at least 10 ticks and three completed lines; 40% clock cases: base unit s / min / h, thresholds 0-30 base units, both clocks at the threshold, 0.01-1 s around it or anywhere up to twice the threshold, Block tag None / empty / a name, completed / forced / no-threshold 10% each, in-interrupt 50%; non-trivial = a thresholded uncompleted unforced line'
+
+    def gen_cases(self, rng, n, tier):
+        return [gen_clock(rng) if rng.random() < 0.4 else gen_interp_case(rng) for _ in range(n)]
+
+    def run_impl(self, case):
+        if case.get("kind") == "clock":
+            return run_clock(case)
+        return super().run_impl(case)
+
+    def case_to_coq(self, case):
+        if case.get("kind") == "clock":
+            return ("(IClock {| k_completed := %s; k_has_thr := %s; k_forced := %s; k_in_interrupt := %s; k_block := %s; k_base := %s; "
+                    "k_thr := %s; k_scope_time := %s; k_block_time := %s |})"
+                    % (b(case["completed"]), b(case["has_thr"]), b(case["forced"]), b(case["in_interrupt"]),
+                       {"none": "TNone", "empty": "TEmpty", "name": "TName"}[case["block"]],
+                       {"s": "Us", "min": "Umin", "h": "Uh"}[case["base"]], z(case["thr"]), z(case["scope"]), z(case["blocktime"])))
+        return "(IRun " + super().case_to_coq(case) + ")"
+
+    def obs_to_coq(self, obs):
+        if obs.get("kind") == "clock":
+            return "OClockRaised" if "raised" in obs else f"(OClock {b(obs['awaiting'])})"
+        return "(ORun " + super().obs_to_coq(obs) + ")"
+
+    def size(self, case):
+        return 1 if case.get("kind") == "clock" else super().size(case)
 
     def nontrivial(self, case, obs):
+        if obs.get("kind") == "clock":
+            return case["has_thr"] and not case["completed"] and not case["forced"]
         return len(obs["views"]) >= 10 and sum(1 for n in obs["views"][-1]["nodes"] if n[1]) >= 3
 
     def kind(self, case, obs):
+        if obs.get("kind") == "clock":
+            return "clock,block=%s,base=%s,awaiting=%s" % (case["block"], case["base"], obs.get("awaiting", "raised"))
         return "raised=%d,ints=%d" % (int(any(v["raised"] for v in obs["views"])), min(2, max(len(v["interrupts"]) for v in obs["views"])))
 
 
